@@ -40,7 +40,7 @@ pub fn c16(a: &Args) {
         let mut p = match h % 4 {
             0 => Palette::new(),
             1 => Palette::dos_default(),
-            2 => { let mut p = Palette::new(); for _ in 0..r.gen_range(1..300) { p.push(Color::new(r.gen(), r.gen(), r.gen())); } p }
+            2 => { let mut p = Palette::new(); for i in 0..r.gen_range(1..300) { let mut c = Color::new(r.gen(), r.gen(), r.gen()); if i % 3 == 0 { c.name = Some(format!("c{i}")); } p.push(c); } p }
             _ => { let mut p = Palette::dos_default(); for _ in 0..r.gen_range(0..40) { let c = r.gen_range(0..4u8); p.push(Color::new(c, c, 0)); } p } // with duplicates
         };
         out.ev(&json!({"ev":"reset","colors":pal_colors(&p),"src":"rnd"}));
@@ -50,8 +50,12 @@ pub fn c16(a: &Args) {
             let op = if k < 70 {
                 let c = if r.gen_bool(0.4) && p.len() > 0 { let (x, y, z) = p.get_rgb(r.gen_range(0..p.len()) as u32); [x, y, z] } else if r.gen_bool(0.5) { [r.gen_range(0..3u8), r.gen_range(0..3u8), r.gen_range(0..3u8)] } else { [r.gen(), r.gen(), r.gen()] };
                 json!({"op":"ins","arg":c})
-            } else if k < 88 {
+            } else if k < 80 {
                 json!({"op":"set","arg":[r.gen_range(0..(p.len() + 3)), [r.gen::<u8>(), r.gen::<u8>(), r.gen::<u8>()]]})
+            } else if k < 88 {
+                // a named colour (as palette files with colour names produce), often one that is inserted again later
+                let c = if r.gen_bool(0.5) { [r.gen_range(0..3u8), r.gen_range(0..3u8), r.gen_range(0..3u8)] } else { [r.gen(), r.gen(), r.gen()] };
+                json!({"op":"setn","arg":[r.gen_range(0..(p.len() + 3)), c, r.gen_range(1..3)]})
             } else if k < 97 {
                 json!({"op":"resize","arg":r.gen_range(0..300)})
             } else {
@@ -162,6 +166,8 @@ fn apply_pal_op(p: &mut Palette, op: &Value, out: &mut Out) {
     let res = guard(|| match name {
         "ins" => { let (r, g, b) = rgb(arg); let ret = p.insert_color_rgb(r, g, b); json!({"ev":"ins","c":[r, g, b],"ret":ret}) }
         "set" => { let i = arg[0].as_u64().unwrap_or(0) as u32; let (r, g, b) = rgb(&arg[1]); p.set_color_rgb(i, r, g, b); json!({"ev":"set","i":i,"c":[r, g, b]}) }
+        "setn" => { let i = arg[0].as_u64().unwrap_or(0) as u32; let (r, g, b) = rgb(&arg[1]); let n = arg[2].as_u64().unwrap_or(1);
+                    let mut c = Color::new(r, g, b); c.name = Some(format!("name {n}")); p.set_color(i, c); json!({"ev":"setn","i":i,"c":[r, g, b],"n":n}) }
         "resize" => { let n = arg.as_u64().unwrap_or(0) as usize; p.resize(n); json!({"ev":"resize","n":n}) }
         _ => { p.clear(); json!({"ev":"clear"}) }
     });
